@@ -153,6 +153,13 @@ def _text_blind(x):
     return x
 
 
+def _order_blind(ev):
+    if isinstance(ev, tuple) and ev and ev[0] == "call" and len(ev) >= 3 and isinstance(ev[2], tuple) and len(ev[2]) == 2 \
+            and isinstance(ev[2][1], tuple):
+        return (ev[0], ev[1], (ev[2][0], tuple(sorted(ev[2][1], key=repr)))) + tuple(ev[3:])
+    return ev
+
+
 def composition(ctx, label, data, o, names):
     """decompile -> inject -> decompile -> inject -> decompile on ONE object: after each edit the decompile of the
     object must contain what the VM does for the object's current bytes (the injected calls included)."""
@@ -181,6 +188,12 @@ def composition(ctx, label, data, o, names):
             vm.log.events = [_text_blind(e) for e in vm.log.events]
             log.events = [_text_blind(e) for e in log.events]
             missing = refvm.missing_events(vm.log, log)
+            if missing:
+                # arguments that come out of iterating a set (`f(*frozenset(...))`) have no defined order: a call that
+                # differs only in the order of its arguments is the same call here
+                vm.log.events = [_order_blind(e) for e in vm.log.events]
+                log.events = [_order_blind(e) for e in log.events]
+                missing = refvm.missing_events(vm.log, log)
             agg.count("composition_steps_checked")
             if missing and not de.scheme_name_collision(o):
                 ev = missing[0][0]
